@@ -363,7 +363,7 @@ def mostek_jump(obj, cc, nn):
     if cc >= 0b100:
         raise InstructionError(obj)
     obj.cond = env.CONDITION[cc]
-    obj.operands = [obj.cond[0], env.cst(nn, 16)]
+    obj.operands = [env.cst(nn, 16)]
     obj.type = type_control_flow
 
 
@@ -376,8 +376,6 @@ def mostek_jump(obj, cc, nn):
 def mostek_jump(obj, e):
     disp = env.cst(e, 8).signextend(16)
     obj.operands = [disp]
-    if hasattr(obj, "cond"):
-        obj.operands.insert(0, obj.cond[0])
     obj.type = type_control_flow
 
 
@@ -405,7 +403,7 @@ def mostek_call(obj, cc, nn):
     if cc >= 0b100:
         raise InstructionError(obj)
     obj.cond = env.CONDITION[cc]
-    obj.operands = [obj.cond[0], env.cst(nn, 16)]
+    obj.operands = [env.cst(nn, 16)]
     obj.type = type_control_flow
 
 
@@ -420,7 +418,7 @@ def mostek_ret(obj, cc):
     if cc >= 0b100:
         raise InstructionError(obj)
     obj.cond = env.CONDITION[cc]
-    obj.operands = [obj.cond[0]]
+    obj.operands = []
     obj.type = type_control_flow
 
 
